@@ -624,6 +624,7 @@ func (e *Exec) resetPath(j *job) {
 	e.panicsAre = "violation"
 	e.ufSeq = 0
 	e.jsonBlobs = nil
+	e.opaqueBytes = nil
 }
 
 // ---------- obligations ----------
